@@ -129,8 +129,10 @@ def tr_complex_add(fn, out):
             t = _ECMP[op]
             found['max'] = t % {'a': 'mx', 'b': '(Fin %s)' % zlit(c)} if '%(a)s' in t else t % ('mx', '(Fin %s)' % zlit(c))
         elif "'default'" in d:
-            need(same(st, "if a.default is not None:\n    member.set('default', _prot.to_unicode(v, a.default))"),
-                 'default: unrecognised statement')
+            d1 = same(st, "if a.default is not None:\n    member.set('default', _prot.to_unicode(v, a.default))")
+            d2 = same(st, "if a.default is not None:\n    member.set('default', _to_schema_literal(_prot, v, a.default))")
+            need(d1 or d2, 'default: unrecognised statement')
+            LITERAL_SITES.append(('member default', d2))
             found['default'] = 'has_default'
         elif "'nillable'" in d:
             op, l, r = cmp_parts(st.test, 'nillable condition')
@@ -195,8 +197,14 @@ def facet_if(st, base_name, what, value_is_raw=False):
     ok1 = same(st.body[1], "%s.set('value', prot.to_unicode(cls, cls.Attributes.%s))" % (var, x))
     ok2 = same(st.body[1], "%s.set('value', cls.Attributes.%s)" % (var, x))
     ok3 = same(st.body[1], "%s.set('value', str(cls.Attributes.%s))" % (var, x))
-    need(ok1 or ok2 or ok3, '%s: the facet value is not the attribute %s' % (what, x))
+    ok4 = same(st.body[1], "%s.set('value', _to_schema_literal(prot, cls, cls.Attributes.%s))" % (var, x))
+    need(ok1 or ok2 or ok3 or ok4, '%s: the facet value is not the attribute %s' % (what, x))
+    if x in ('gt', 'ge', 'lt', 'le'):
+        LITERAL_SITES.append(('range ' + x, ok4))
     return x, tag
+
+
+LITERAL_SITES = []      # (site, written through _to_schema_literal?)
 
 
 def tr_range(tree, out):
@@ -269,8 +277,10 @@ def tr_simple(tree, out):
     need(isinstance(a0, ast.Assign) and isinstance(a0.value, ast.Call) and same(a0.value.func, 'etree.SubElement')
          and same(a0.value.args[0], 'restriction'), 'simple_get_restriction_tag: unrecognised enumeration element')
     tag = xsd_tag(a0.value.args[1], 'enumeration')
-    need(same(loops[0].body[1], "%s.set('value', XmlDocument().to_unicode(cls, %s))" % (a0.targets[0].id, loops[0].target.id)),
-         'simple_get_restriction_tag: enumeration value is not the member of values')
+    e1 = same(loops[0].body[1], "%s.set('value', XmlDocument().to_unicode(cls, %s))" % (a0.targets[0].id, loops[0].target.id))
+    e2 = same(loops[0].body[1], "%s.set('value', _to_schema_literal(XmlDocument(), cls, %s))" % (a0.targets[0].id, loops[0].target.id))
+    need(e1 or e2, 'simple_get_restriction_tag: enumeration value is not the member of values')
+    LITERAL_SITES.append(('enumeration', e2))
     need(any(same(s, "restriction.set('base', extends.get_type_name_ns(document.interface))") for s in fn.body),
          'simple_get_restriction_tag: base is not the extended type')
     out.append('(** simple_get_restriction_tag *)')
@@ -304,10 +314,30 @@ def tr_is_default(mod, path, base, out, name):
     out.append('Definition is_default_attrs_%s : list rattr := [%s].' % (name, '; '.join(RATTR[a] for a in attrs)))
 
 
+def tr_literal(tree, out):
+    """how facet / enumeration / default values are written into the schema"""
+    used = set(u for _, u in LITERAL_SITES)
+    need(len(LITERAL_SITES) == 6, 'expected 6 sites that write a value into the schema, found %r' % (LITERAL_SITES,))
+    need(len(used) == 1, 'facet, enumeration and default values are not all written the same way: %r' % (LITERAL_SITES,))
+    helper = [n for n in tree.body if isinstance(n, ast.FunctionDef) and n.name == '_to_schema_literal']
+    out.append('(** facet, enumeration and default values of Decimal classes, as written into the schema *)')
+    if used == {True}:
+        need(len(helper) == 1, '_to_schema_literal is used but not defined')
+        b = strip_doc(helper[0].body)
+        need(len(b) == 2 and same(b[0], "if isinstance(value, D) and value.is_finite():\n    return format(value, 'f')")
+             and same(b[1], 'return prot.to_unicode(cls, value)'), '_to_schema_literal: unrecognised body')
+        out.append('Definition schema_decimal_plain : bool := true.   (* format(value, \'f\') *)')
+    else:
+        out.append('Definition schema_decimal_plain : bool := false.  (* ProtocolBase.to_unicode, as on the wire *)')
+
+
 def tr_attribute(tree, ctree, out):
     fn = find_function(tree, ['xml_attribute_add'])
     need(any(same(s, "if cls._use is not None:\n    element.set('use', cls._use)") for s in fn.body),
          'xml_attribute_add: use is not written from cls._use')
+    a1 = any(same(s, "if d is not None:\n    element.set('default', _prot.to_unicode(cls.type, d))") for s in fn.body)
+    a2 = any(same(s, "if d is not None:\n    element.set('default', _to_schema_literal(_prot, cls.type, d))") for s in fn.body)
+    need(a1 or a2, 'xml_attribute_add: unrecognised default statement')
     new = find_function(ctree, ['XmlAttribute', '__new__'])
     b = strip_doc(new.body)
     need(len(b) == 4 and same(b[1], 'retval._use = use') and isinstance(b[2], ast.If) and same(b[3], 'return retval'),
@@ -379,6 +409,7 @@ def generate(repo):
     from spyne.model import primitive as P
     from spyne.model.binary import ByteArray
     tree = ast.parse(open(model.__file__).read())
+    del LITERAL_SITES[:]
     out = ['(** GENERATED by harness/translate/xsdemit.py from the working tree of Spyne; do not edit. *)',
            'From SpyneV Require Import Base.Prelude Base.Ext C06.Syntax.', 'Open Scope Z_scope.', '']
     tr_complex_add(find_function(tree, ['complex_add']), out)
@@ -415,6 +446,7 @@ def generate(repo):
          'Boolean / Duration restrictions are not written by simple_get_restriction_tag')
     for c in (P.DateTime, P.Date, P.Time):
         need(h[c].__code__ is rng.__code__ and h[c] is not rng, '%s restrictions are not written by a range writer' % c.__name__)
+    tr_literal(tree, out)
     tr_attribute(tree, ast.parse(open(cx.__file__).read()), out)
     tr_printers(ast.parse(open(ob.__file__).read()), ast.parse(open(px.__file__).read()), out)
     need(px.NIL_ATTR == {px.XSI('nil'): 'true'}, 'NIL_ATTR is %r' % (px.NIL_ATTR,))
